@@ -333,8 +333,38 @@ def plan(tier, seed, workdir):
     for name, params, pre, call in tasks:
         body += hgen.harness(name, params, pre, core_call=call)
     path = hgen.write_module(workdir, 'c19_data', body)
+    def domain(name, params):
+        # finite index domains (symbolic ints of sort/filter stay out: those conditions are genuinely unbounded)
+        if name.startswith(('sort_', 'filter_')):
+            return None
+        n = int(name.split('_n')[1][0]) if '_n' in name else 2
+        dom = {}
+        for prm in [q.split(':')[0].strip() for q in params.split(',')]:
+            if prm in ('k0', 'k1', 'k2'):
+                dom[prm] = list(range(kmax)) if int(prm[1]) < n else [0]
+            elif prm in ('v0', 'v1', 'v2'):
+                dom[prm] = list(range(vmax if name.startswith('aggregate') else 3)) if int(prm[1]) < n else [0]
+            elif prm == 'nul':
+                dom[prm] = list(range(n + 1))
+            elif prm == 'cnt':
+                dom[prm] = [1, 2]
+            elif prm in ('flt', 'bycat', 'd1'):
+                dom[prm] = [False, True]
+            elif prm == 'th':
+                dom[prm] = [0, 1, 2]
+            elif prm in ('l0', 'l1', 'r0', 'r1'):
+                dom[prm] = list(range(jk))
+            elif prm in ('nl', 'nr'):
+                dom[prm] = [1, 2]
+            elif prm == 'c1':
+                dom[prm] = list(range(18))
+            elif prm == 'c3':
+                dom[prm] = list(range(18 if tier == 'thorough' else 6))
+            else:
+                return None
+        return dom
     for name, params, pre, call in tasks:
-        hgen.ch_tasks(p, path, name, timeout, twin_timeout=60, est=40, family='data function ' + name.split('_')[0])
+        hgen.ch_tasks(p, path, name, timeout, twin_timeout=60, est=40, family='data function ' + name.split('_')[0], enum=domain(name, params))
     p.rule = 'one CrossHair condition per data function over a symbolic table (measure cells symbolic ints/nulls, key cells from a mixed-type pool)'
     p.bounds = ['tables <= 2 (quick) / 3 (thorough) rows (join: 2 x 2)', 'measures: symbolic ints for sort/filter, pool values where the code serialises or mixes floats; at most one null; categories/keys from a 10-element pool (1, 1.0, "1", true, null, strings '
                 'with JSON punctuation)', 'join field layouts incl. aa/aa2/aa3 collisions', 'CSV: 18 cell texts incl. quoted commas/quotes and date-like invalid text']
